@@ -15,8 +15,8 @@ Two layers.
 * **Meaning (model `S3V.PostForm`, tied by the `svcinput` POST-form cases).** For every form — any fields, any
   order, any case of the names, any repetition — and every file length, when the decoder accepts: each
   header-equivalent member is filled from the text of the LAST field of its header's name, byte for byte (the
-  member itself for the string-typed ones; the scalar parsers `FromStr` of the other member types are outside the
-  model), the key likewise, the metadata map holds exactly the last value of every non-empty `x-amz-meta-<k>`,
+  member itself for the string-typed ones; the scalar parsers `FromStr` of the other member types are modelled and
+  characterised in `S3V/Props/C10FormScalar.lean`), the key likewise, the metadata map holds exactly the last value of every non-empty `x-amz-meta-<k>`,
   and the content length is the file part's length. A form without `key` is refused.
 
 The fields are `finishFields raw`, the list `try_parse` builds from the fields as sent (`C10_field_lookup`).
